@@ -113,7 +113,7 @@ class StoreDomain(ExactCollections, ReplyDomain):
         self.readers = set(readers)
         self.base = prog.module("pymemcache/client/base.py")
 
-    global_keys = ("#nread", "#overread", "#nsend", "#imprecise")
+    global_keys = ("#nread", "#overread", "#nsend", "#imprecise", "#nkeychk")
 
     def mark_imprecise(self, state, node):
         return state.set("#imprecise", 1)
@@ -178,6 +178,11 @@ class StoreDomain(ExactCollections, ReplyDomain):
             return [("ok", NONE, state.set("#nsend", min(3, state.get("#nsend", 0) + 1)))]
         if name in ("self.close", "self.disconnect_all"):
             return [("ok", NONE, state)]
+        if name == "self.check_key" and isinstance(getattr(self, "fault", None), str) and self.fault.startswith("illegal-key:"):
+            n = state.get("#nkeychk", 0) + 1
+            state = state.set("#nkeychk", n)
+            if n == int(self.fault.split(":")[1]):
+                return [("exc", Exc(ORD, "MemcacheIllegalInputError", node.lineno), state)]
         if name == "self.check_key" and args and isinstance(args[0], Opaque) and args[0].tag.startswith("K"):
             # the wire form of the symbolic key K<i> is the token k<i>
             # (K1B is a second caller key with the same wire form as K1, like "k" and b"k")
@@ -223,7 +228,7 @@ def _show(v):
     return str(v)
 
 
-def script_eval(prog, mname, replies, nkeys=2, noreply=False, ignore_exc=False, full=False, oneshot=False, fault=None, alias=False, noreply_arg="unset", default_noreply=None):
+def script_eval(prog, mname, replies, nkeys=2, noreply=False, ignore_exc=False, full=False, oneshot=False, fault=None, alias=False, noreply_arg="unset", default_noreply=None, keyseq=None):
     """Evaluate any public wire method of Client end to end against a scripted sequence of reply lines / data blocks.
     -> (returned values, exception classes)"""
     f = prog.method("Client", mname)
@@ -232,10 +237,12 @@ def script_eval(prog, mname, replies, nkeys=2, noreply=False, ignore_exc=False, 
     dom = StoreDomain(prog, f, replies, noreply, exn, exn, readers)
     dom.ignore_exc = ignore_exc
     dom.default_noreply = default_noreply  # None: self.default_noreply is whatever `noreply` says
-    dom.fault = fault  # None | 'connect' | 'send' | 'deserialize'
+    dom.fault = fault  # None | 'connect' | 'send' | 'deserialize' | 'illegal-key:<n>' (the n-th key validated is illegal)
     ks = tuple(Opaque("K%d" % (i + 1)) for i in range(nkeys))
     if alias:
         ks = (Opaque("K1"), Opaque("K1B"))  # two distinct caller keys that are the same key on the wire
+    if keyseq is not None:
+        ks = tuple(Opaque(t) for t in keyseq)  # e.g. a key the caller asks for twice
     env = {}
     for p in f.params:
         if p.name in ("self", "noreply"):
@@ -256,9 +263,32 @@ def script_eval(prog, mname, replies, nkeys=2, noreply=False, ignore_exc=False, 
     if noreply_arg != "unset" and f.param("noreply") is not None:
         env["noreply"] = Const(noreply_arg)  # the value the caller passes for `noreply` (None = not given)
     outs = Interp(dom, f.node, prog).run(Env(env))
+    if dom.thresholds:
+        # a size of the scenario (zero to two keys) was compared with / divided by a constant far above it: what the
+        # method does beyond that size is not explored by any of these scripts (see size_thresholds)
+        prog.__dict__.setdefault("_size_thresholds", {}).setdefault(mname, set()).update(dom.thresholds)
     if full:
         return outs
     return [deref(v, s_) for s_, v, t in outs.of("ret")], [e.cls for s_, e, t in outs.of("exc")]
+
+
+def _flat_frags(frags):
+    out = []
+    for f in frags:
+        out.append(f)
+        if f[0] == "rep":
+            for x in f[1]:
+                if hasattr(x, "frags"):
+                    out += _flat_frags(x.frags)
+    return out
+
+
+def size_thresholds(prog, rule, prefix="Client"):
+    """To be called after a rule's script_eval rows: a method that compares the size of its batch with a constant far
+    above the scenarios' zero to two keys (a chunk size, a fast-path threshold) has behaviour none of the rows explores;
+    the rule is then undecided for that method - by name, with the constant - instead of silently satisfied."""
+    for mname, ths in sorted(prog.__dict__.get("_size_thresholds", {}).items()):
+        rule.undecided("%s.%s:size-threshold" % (prefix, mname), "%s.%s compares or divides the size of its batch with %s: the rows explore batches of 0, 1 and 2 keys only; what happens at and beyond that size is not decided" % (prefix, mname, sorted(ths)))
 
 
 def has_top(v):
@@ -388,6 +418,17 @@ def retrieval_rows(prog, r3):
                 st1, got1, w1 = judge(script_eval(prog, mname, replies, full=True, oneshot=True), "ret", pred)
                 settle(r3, st1, "Client.%s(keys given as a one-shot iterator): %s -> %s" % (mname, [r.decode() for r in replies], wtxt), "Client.%s:one-shot-keys:%s" % (mname, key), "Client.%s, called with keys as an iterator that can be traversed only once (a generator), %s for the reply %s; with a list it is %s: the keys are traversed more than once without being materialised first" % (mname, got1, [r.decode() for r in replies], wtxt), f, w1)
             settle(r3, st, "Client.%s: %s -> %s" % (mname, [r.decode() for r in replies], wtxt), "Client.%s:reply:%s" % (mname, key), "Client.%s %s for the reply %s; the documented result is %s (key as passed by the caller, data block of that VALUE line deserialised with its flags%s)" % (mname, got, [r.decode() for r in replies], wtxt, ", its cas token" if "gets" in mname or "gats" in mname else ""), f, w)
+        if f.param("keys") is not None:
+            # a key asked for twice is one item: it comes back under that key, and the keys after it keep their own values
+            n_rows += 1
+            cas = "gets" in mname
+            replies = (b"VALUE k1 1 2 8" if cas else b"VALUE k1 1 2", b"de", b"VALUE k2 5 3 9" if cas else b"VALUE k2 5 3", b"abc", b"END")
+            want = {"K1": deser("K1", b"de", 1), "K2": deser("K2", b"abc", 5)}
+            if cas:
+                want = {"K1": TupleV((want["K1"], Const(b"8"))), "K2": TupleV((want["K2"], Const(b"9")))}
+            pred = lambda v, want=want: isinstance(v, DictV) and len(v.items) == len(want) and {k.tag: x for k, x in v.items if isinstance(k, Opaque)} == want
+            st, got, w = judge(script_eval(prog, mname, replies, full=True, keyseq=("K1", "K1", "K2")), "ret", pred)
+            settle(r3, st, "Client.%s([K1, K1, K2]): each key with its own value" % mname, "Client.%s:repeated-key" % mname, "Client.%s([k1, k1, k2]) %s for the reply %s; every requested key must come back with the value of its own VALUE line (a repeated key shifts or overwrites the pairing of wire keys and caller keys)" % (mname, got, [r.decode() for r in replies]), f, w)
         # a reply cut short (no END) never yields a result; a line that is neither VALUE nor END is an error
         n_rows += 2
         cut = rows[-1][0][:-1]
@@ -438,6 +479,8 @@ def run(chk):
             for cmd in wire.commands_of(ev["wire"]):
                 if cmd and cmd[0][0] == "lit":
                     verbs.add(cmd[0][1].decode("latin-1").split("\r")[0].split(" ")[0])
+                elif cmd and wire.lost(_flat_frags(cmd)):
+                    verbs.add("<lost>")
                 elif cmd:
                     verbs.add("<non-literal>")
             b = ev["bound"]
@@ -446,6 +489,9 @@ def run(chk):
                     names.add(b[k].v.decode() if isinstance(b[k], Const) and isinstance(b[k].v, bytes) else wire.describe(b[k]))
             if "expect_cas" in b:
                 ecas.add(b["expect_cas"].v if isinstance(b["expect_cas"], Const) else wire.describe(b["expect_cas"]))
+        if "<lost>" in verbs:
+            r2.undecided("Client.%s:verb" % m.name, "Client.%s: the command is built in a way the wire domain cannot follow; its verb is not known" % m.name)
+            verbs = {want}
         r2.expect(verbs == {want}, "Client.%s sends `%s`" % (m.name, want), "Client.%s:verb" % m.name, "Client.%s sends the verb(s) %s; it is documented to send `%s`" % (m.name, sorted(verbs), want), fn=m, node=m.node)
         r2.expect(names == {want}, "Client.%s reports errors as `%s`" % (m.name, want), "Client.%s:cmd-name" % m.name, "Client.%s passes %s as the command name for reply checking / error reporting (expected `%s`): replies are validated against another verb's table" % (m.name, sorted(names), want), fn=m, node=m.node)
         if m.name in spec.EXPECT_CAS:
@@ -476,6 +522,7 @@ def run(chk):
             settle(r3, st, "Client.%s: reply %r -> %r" % (mname, reply, want), "Client.%s:reply:%s" % (mname, reply.decode().split(" ")[0]), "Client.%s %s for the server reply %r; the documented result is %r" % (mname, got, reply, want), f, w)
     n_rows += storage_rows(prog, r3, tier=chk.tier)
     n_rows += retrieval_rows(prog, r3)
+    size_thresholds(prog, r3)
     r3.count("rows", n_rows)
 
     # ------------------------------------------------------------------ R4 noreply constants and defaults
@@ -540,6 +587,10 @@ def run(chk):
     from . import rules_C01, report
 
     report.include_rules(chk, r5, rules_C01, ("C01.R3",), "each call reads exactly the reply lines of its own commands, up to the terminator")
+    from . import rules_C12
+
+    report.include_rules(chk, r3, rules_C12, ("C12.R4",), "through HashClient the result is the merge of what every server answered: a key a server holds is not reported absent, a failed store is not reported stored")
+    report.include_rules(chk, r5, rules_C01, ("C01.R1",), "a call that ends with an error reply leaves no unread replies of its batch on a connection that stays in use: later calls would report those as their own outcome")
     # the value that decides whether replies are read is the one that put ` noreply` on the wire (same rule as C01.R2b)
     wire.check_noreply_coupling(prog, r4)
     chk.assume("the server answers with a reply from the verb's alphabet (error lines are handled by _raise_errors before these tables)")
